@@ -2,6 +2,7 @@
 //! implementations and the per-property oracles; the binary `xv` and the fuzz targets use it).
 pub mod cachex;
 pub mod engine;
+pub mod fuzzdrv;
 pub mod gen;
 pub mod props;
 pub mod refs;
